@@ -1,41 +1,367 @@
+//! wsim — deterministic simulation with fault injection for weechess-rs.
+//!
+//!   wsim check <ID> [--tier quick|thorough] [--seed N] [--runs N] [--jobs N] [--secs N]
+//!   wsim replay <file>
+//!   wsim selfcheck oracle|determinism
+//!   wsim one <ID> <index> [--seed N]        (debug: one run, verbose)
+
+mod batch;
 mod bridge;
+mod cases;
+mod corpus;
 mod exec;
+mod known;
+mod malformed;
+mod replay;
+mod report;
 mod rng;
 mod sched;
+mod search;
+mod table;
+mod uci;
 
-use sched::{SchedSpec, Strategy};
-use weechess_simrt::world::{self, Event, Run};
+use std::path::PathBuf;
+
+pub struct Ctx {
+    pub tb: refchess::tb::Tb,
+    pub known: Vec<known::Known>,
+    pub verif_dir: PathBuf,
+    /// liveness bound B (nodes a worker may still search after the cancellation signal)
+    pub post_cancel_bound: u64,
+}
+
+pub const CLAIMED: &[&str] = &["C03", "C04", "C06", "C07", "C14", "C15", "C17", "C18", "C19"];
+
+pub fn expected_probes(prop: &str) -> Vec<&'static str> {
+    match prop {
+        "C03" => vec!["multi-worker-iteration", "table-more-than-half-full", "stop@global-node"],
+        "C04" => vec![
+            "cancel-observed-mid-iteration",
+            "terminal-root-searched",
+            "stopped-search-returned",
+            "stop@world-step",
+            "stop@worker-node",
+            "stop@global-node",
+            "stop@iteration-start",
+            "stop-after-completion",
+            "stop-repeated",
+            "drop-receiver",
+            "drop-sender",
+            "go-on-terminal-position",
+        ],
+        "C06" => vec!["multi-worker-iteration"],
+        "C07" => vec![
+            "go-while-search-running",
+            "stop-while-search-running",
+            "position-while-search-running",
+            "isready-while-search-running",
+            "quit-while-search-running",
+            "eof-while-search-running",
+            "stop-after-completion",
+            "book-answer",
+            "search-answer",
+            "cancel-observed-mid-iteration",
+            "timer-sleeps",
+            "clock-jump",
+        ],
+        "C14" => vec!["malformed-line", "isready-while-search-running"],
+        "C15" => vec!["concurrent-overlapping-ops", "displacement", "same-key-overwrite", "bucket-overflow", "miss-after-possible-displacement"],
+        "C17" => vec!["multi-worker-iteration"],
+        "C18" => vec!["ucinewgame-while-search-running", "probe-transcripts-equal", "stop-after-completion"],
+        "C19" => vec![],
+        _ => vec![],
+    }
+}
+
+pub fn coverage_rule(prop: &str) -> String {
+    let common = "one run = one explicit case (workload + fault plan, generated from the run seed) executed once under one seeded schedule; a run is non-trivial when at least one scheduling decision had two or more runnable tasks and the case itself involves concurrency, faults or history; distinct = distinct (case hash, decision-trace hash) pairs";
+    match prop {
+        "C15" => format!("table-level world: 1..32 client tasks issuing insert/find/entries on one table built through the verif hook, keys congruent modulo tables*buckets plus extremes, dims down to 1x1; {}", common),
+        "C03" | "C04" | "C06" | "C17" | "C19" => format!("search-level world: chains of searches sharing one artifact through Searcher::analyze or verif::analyze_sync with explicit worker counts, Stop/drop faults keyed to world steps and node/iteration probes; {}", common),
+        _ => format!("UCI-level world: the real Client::exec loop fed through simulated stdin/clock/output with generated command sessions and drawn timing; {}", common),
+    }
+}
+
+pub fn assumptions(prop: &str) -> Vec<String> {
+    let mut v = vec![
+        "shuttle models locks, channels and atomics as sequentially consistent; weak-memory effects are not explored".to_string(),
+        "the rayon stub runs every item of the parallel iterator as its own task (a superset of rayon's interleavings)".to_string(),
+        "oracles are independent of the repository: refchess (validated against published perft counts), retrograde KQK/KRK tablebases, bounded mate solver".to_string(),
+        "sampling, not proof: the verdict covers the seeds, strategies and bounds reported here".to_string(),
+    ];
+    match prop {
+        "C04" => v.push("'short bounded time' after Stop is read as: no worker searches more than B further nodes after the cancellation signal (B is recorded in the case) and the run ends within the step cap".to_string()),
+        "C14" => v.push("only the UCI-loop half of C14 is decided here (arbitrary input lines, including FEN text reached through `position fen`); direct SAN/FEN parser totality is a pure string property outside this technique".to_string()),
+        "C18" => v.push("thread_rng is put in constant-stream mode so that a fresh session draws the same search seed; depth <= 2 keeps the probe single-worker".to_string()),
+        _ => {}
+    }
+    v
+}
+
+fn arg_val(args: &[String], name: &str) -> Option<String> {
+    args.iter().position(|a| a == name).and_then(|i| args.get(i + 1).cloned())
+}
+
+fn default_runs(prop: &str, thorough: bool) -> u64 {
+    let (q, t) = match prop {
+        "C15" => (60_000, 1_500_000),
+        "C03" => (12_000, 250_000),
+        "C04" => (3_000, 60_000),
+        "C06" => (8_000, 150_000),
+        "C07" => (4_000, 80_000),
+        "C14" => (6_000, 100_000),
+        "C17" => (6_000, 100_000),
+        "C18" => (3_000, 60_000),
+        "C19" => (4_000, 80_000),
+        _ => (1_000, 10_000),
+    };
+    if thorough {
+        t
+    } else {
+        q
+    }
+}
+
+fn make_ctx() -> Ctx {
+    let verif_dir = PathBuf::from(std::env::var("WSIM_VERIF_DIR").unwrap_or_else(|_| "/verif".to_string()));
+    let known = known::load(&verif_dir.join("known_findings.json"));
+    let post_cancel_bound = std::env::var("WSIM_POST_CANCEL_BOUND").ok().and_then(|s| s.parse().ok()).unwrap_or(250_000);
+    Ctx { tb: refchess::tb::Tb::build(), known, verif_dir, post_cancel_bound }
+}
 
 fn main() {
-    let t = std::time::Instant::now();
-    for seed in 0..6u64 {
-        let spec = SchedSpec { seed, strategy: Strategy::Uniform, trace: None, step_cap: 5_000_000 };
-        let mut run = Run::new(seed);
-        run.dims = (8, 64);
-        run.rayon_threads = 4;
-        let out = exec::execute(&spec, run, move || {
-            let h = shuttle::thread::spawn(|| weechess_engine::uci::Client::new().exec().is_ok());
-            for l in ["uci", "position startpos moves a2a4 h7h5 b2b4 g7g5", "go depth 4", "isready"] {
-                world::push_line(Some(l.to_string()));
-                for _ in 0..20 { world::step(); }
+    let args: Vec<String> = std::env::args().skip(1).collect();
+    let cmd = args.first().map(|s| s.as_str()).unwrap_or("");
+    let seed: u64 = arg_val(&args, "--seed").or_else(|| std::env::var("VERIF_SEED").ok()).and_then(|s| s.parse().ok()).unwrap_or(1);
+    let jobs: usize = arg_val(&args, "--jobs").and_then(|s| s.parse().ok()).unwrap_or_else(|| std::thread::available_parallelism().map(|n| n.get()).unwrap_or(4));
+    match cmd {
+        "check" => {
+            let prop = args.get(1).cloned().unwrap_or_default();
+            if !CLAIMED.contains(&prop.as_str()) {
+                eprintln!("HARNESS-ERROR: no check for property '{}'", prop);
+                std::process::exit(2);
             }
-            // wait for quiescence
-            let mut n = 0;
-            while world::step() > 0 { n += 1; }
-            world::note(format!("quiescent after {} world steps", n));
-            world::push_line(Some("quit".into()));
-            let ok = h.join().unwrap();
-            world::tick(10_000_000_000);
-            while world::step() > 0 {}
-            (ok, world::sleeper_count())
-        });
-        let run = out.run.unwrap();
-        println!("seed {} outcome {:?} value {:?} steps {} switches {} nodes {} log {}", seed, out.outcome, out.value, out.sched.steps, out.sched.switches, run.probe.nodes_total, run.log.len());
-        if seed == 0 {
-            for e in run.log.iter() {
-                match e { Event::Out{line, task, ..} => println!("   [{}] {}", run.labels.get(task).cloned().unwrap_or_default(), line.lines().next().unwrap_or("")), other => println!("   {:?}", other) }
+            let tier = arg_val(&args, "--tier").or_else(|| std::env::var("VERIF_TIER").ok()).unwrap_or_else(|| "quick".to_string());
+            let thorough = tier == "thorough";
+            let runs = arg_val(&args, "--runs").and_then(|s| s.parse().ok()).unwrap_or_else(|| default_runs(&prop, thorough));
+            let max_secs = arg_val(&args, "--secs").and_then(|s| s.parse().ok()).unwrap_or(if thorough { 3 * 3600 } else { 600 });
+            let ctx = make_ctx();
+            println!("[wsim] property {} tier {} VERIF_SEED {} runs {} jobs {}", prop, tier, seed, runs, jobs);
+            let cfg = batch::BatchCfg { prop: prop.clone(), thorough, base_seed: seed, runs, jobs, max_secs, write_evidence: !args.iter().any(|a| a == "--no-evidence"), quiet: false };
+            let mut res = batch::run_batch(&ctx, &cfg);
+            // C19 also across processes: a child with another pool size re-runs a prefix of
+            // the batch; the per-run digests (events + decision traces) must be identical
+            if prop == "C19" && res.exit == 0 && !args.iter().any(|a| a == "--no-child") {
+                let n = runs.min(if thorough { 4000 } else { 600 });
+                let exe = std::env::current_exe().unwrap();
+                let out = std::process::Command::new(exe)
+                    .args(["digests", &prop, "--seed", &seed.to_string(), "--runs", &n.to_string(), "--jobs", "3", "--tier", &tier])
+                    .output();
+                match out {
+                    Ok(o) if o.status.success() => {
+                        let theirs: Vec<(u64, u64)> = String::from_utf8_lossy(&o.stdout)
+                            .lines()
+                            .filter_map(|l| {
+                                let mut it = l.split_whitespace();
+                                Some((it.next()?.parse().ok()?, it.next()?.parse().ok()?))
+                            })
+                            .collect();
+                        let mine: std::collections::HashMap<u64, u64> = res.digests.iter().copied().collect();
+                        let mut bad = 0;
+                        for (i, d) in &theirs {
+                            if mine.get(i) != Some(d) {
+                                bad += 1;
+                                if bad <= 3 {
+                                    println!("VIOLATION property=C19 replay=/verif/replays/C19-cross-process-{}.txt", i);
+                                    let _ = std::fs::create_dir_all("/verif/replays");
+                                    let _ = std::fs::write(format!("/verif/replays/C19-cross-process-{}.txt", i), format!("run index {} of `wsim check C19 --seed {}` gives digest {:?} in this process and {} in a second process\nreplay: wsim one C19 {} --seed {}\n", i, seed, mine.get(i), d, i, seed));
+                                }
+                            }
+                        }
+                        println!("[wsim] C19 cross-process: {} runs compared with a second OS process (3 pool threads), {} differ", theirs.len(), bad);
+                        if bad > 0 {
+                            res.exit = 1;
+                        }
+                    }
+                    other => {
+                        eprintln!("HARNESS-ERROR: child process for the cross-process comparison failed: {:?}", other.map(|o| o.status));
+                        res.exit = 2;
+                    }
+                }
+            }
+            std::process::exit(res.exit);
+        }
+        "digests" => {
+            let prop = args.get(1).cloned().unwrap_or_default();
+            let tier = arg_val(&args, "--tier").unwrap_or_else(|| "quick".to_string());
+            let runs = arg_val(&args, "--runs").and_then(|s| s.parse().ok()).unwrap_or(100);
+            let ctx = make_ctx();
+            let cfg = batch::BatchCfg { prop, thorough: tier == "thorough", base_seed: seed, runs, jobs, max_secs: 3600, write_evidence: false, quiet: true };
+            let res = batch::run_batch(&ctx, &cfg);
+            for (i, d) in res.digests {
+                println!("{} {}", i, d);
+            }
+            std::process::exit(0);
+        }
+        "replay" => {
+            let path = args.get(1).cloned().unwrap_or_default();
+            let ctx = make_ctx();
+            std::process::exit(replay::replay(&ctx, &path));
+        }
+        "one" => {
+            let prop = args.get(1).cloned().unwrap_or_default();
+            let index: u64 = args.get(2).and_then(|s| s.parse().ok()).unwrap_or(0);
+            let thorough = arg_val(&args, "--tier").map(|t| t == "thorough").unwrap_or(false);
+            let ctx = make_ctx();
+            let run_seed = batch::run_seed_for(seed, &prop, index);
+            let (case, spec) = cases::generate(&ctx, &prop, thorough, run_seed, index);
+            println!("case: {}", serde_json::to_string_pretty(&case).unwrap());
+            println!("schedule: seed {} strategy {:?}", spec.seed, spec.strategy);
+            let t = std::time::Instant::now();
+            let rep = cases::run(&ctx, &case, &spec);
+            for l in &rep.transcript {
+                println!("  {}", l);
+            }
+            println!("outcome {:?} steps {} switches {} nodes {} digest {:016x} in {:?}", rep.outcome, rep.stats.steps, rep.stats.switches, rep.stats.nodes, rep.digest, t.elapsed());
+            println!("faults {:?} probes {:?}", rep.stats.faults, rep.stats.probes);
+            println!("oracle evaluations {:?}", rep.stats.oracle_evals);
+            for v in &rep.violations {
+                println!("VIOLATION {} :: {}", v.signature, v.detail);
+            }
+            if let Some(e) = rep.harness_error {
+                println!("HARNESS-ERROR {}", e);
+            }
+        }
+        "case" => {
+            // debug: run a Case given as JSON under a seeded schedule
+            let path = args.get(1).cloned().unwrap_or_default();
+            let ctx = make_ctx();
+            let case: cases::Case = serde_json::from_str(&std::fs::read_to_string(&path).expect("read case")).expect("parse case");
+            let spec = sched::SchedSpec { seed, strategy: sched::Strategy::Sticky(900), trace: None, step_cap: 60_000_000 };
+            let t = std::time::Instant::now();
+            let rep = cases::run(&ctx, &case, &spec);
+            for l in rep.transcript.iter().rev().take(30).rev() {
+                println!("  {}", l);
+            }
+            println!("outcome {:?} steps {} nodes {} in {:?}", rep.outcome, rep.stats.steps, rep.stats.nodes, t.elapsed());
+            println!("faults {:?} probes {:?}", rep.stats.faults, rep.stats.probes);
+            for v in &rep.violations {
+                println!("VIOLATION {} :: {}", v.signature, v.detail);
+            }
+            if let Some(e) = rep.harness_error {
+                println!("HARNESS-ERROR {}", e);
+            }
+        }
+        "selfcheck" => {
+            let what = args.get(1).map(|s| s.as_str()).unwrap_or("oracle");
+            let code = match what {
+                "oracle" => selfcheck_oracle(),
+                "determinism" => selfcheck_determinism(&args, seed, jobs),
+                _ => 2,
+            };
+            std::process::exit(code);
+        }
+        _ => {
+            eprintln!("usage: wsim check <ID> [--tier quick|thorough] [--seed N] [--runs N] | replay <file> | selfcheck oracle|determinism | one <ID> <index>");
+            std::process::exit(2);
+        }
+    }
+}
+
+fn selfcheck_oracle() -> i32 {
+    let mut bad = 0;
+    match refchess::selftest() {
+        Ok(n) => println!("[selfcheck] refchess perft suite ok ({} leaf nodes counted, 6 published positions)", n),
+        Err(e) => {
+            println!("[selfcheck] refchess perft FAILED: {}", e);
+            bad += 1;
+        }
+    }
+    let tb = refchess::tb::Tb::build();
+    let (q, r) = tb.max_dtm();
+    // published maxima: KQK mate in 10 moves, KRK mate in 16 moves
+    if q != 21 || r != 33 {
+        println!("[selfcheck] tablebase maxima wrong: kqk {} krk {} (expected encoded 21 / 33)", q, r);
+        bad += 1;
+    } else {
+        println!("[selfcheck] tablebases ok (KQK max 10 moves, KRK max 16 moves)");
+    }
+    for fen in corpus::all_corpus() {
+        match refchess::Pos::from_fen(fen) {
+            Some(p) if p.is_sane() && p.fen() == fen => {
+                let terminal = p.legal_moves().is_empty();
+                let should = corpus::TERMINAL.contains(&fen);
+                if terminal != should {
+                    println!("[selfcheck] corpus position '{}' terminal={} but listed otherwise", fen, terminal);
+                    bad += 1;
+                }
+                match bridge::state_from_fen(fen) {
+                    Some(s) if bridge::state_fen(&s) == fen => {}
+                    _ => {
+                        println!("[selfcheck] engine does not round-trip corpus FEN '{}'", fen);
+                        bad += 1;
+                    }
+                }
+            }
+            _ => {
+                println!("[selfcheck] corpus FEN invalid or not canonical: '{}'", fen);
+                bad += 1;
             }
         }
     }
-    println!("elapsed {:?}", t.elapsed());
+    println!("[selfcheck] corpus: {} positions checked; enumerated malformed lines: {}", corpus::all_corpus().len(), malformed::enumerated_cached().len());
+    if bad == 0 {
+        0
+    } else {
+        2
+    }
+}
+
+/// Every scenario: N run seeds, each executed twice in this process (different pool
+/// threads) and once more in a child process with another pool size; digests must agree.
+fn selfcheck_determinism(args: &[String], seed: u64, jobs: usize) -> i32 {
+    let n: u64 = arg_val(args, "--runs").and_then(|s| s.parse().ok()).unwrap_or(300);
+    let ctx = make_ctx();
+    let mut bad = 0;
+    for prop in CLAIMED {
+        let cfg = batch::BatchCfg { prop: prop.to_string(), thorough: false, base_seed: seed, runs: n, jobs, max_secs: 3600, write_evidence: false, quiet: true };
+        let a = batch::run_batch(&ctx, &cfg).digests;
+        let cfg2 = batch::BatchCfg { jobs: 5, ..batch::BatchCfg { prop: prop.to_string(), thorough: false, base_seed: seed, runs: n, jobs, max_secs: 3600, write_evidence: false, quiet: true } };
+        let b = batch::run_batch(&ctx, &cfg2).digests;
+        let exe = std::env::current_exe().unwrap();
+        let out = std::process::Command::new(exe).args(["digests", prop, "--seed", &seed.to_string(), "--runs", &n.to_string(), "--jobs", "1"]).output();
+        let c: Vec<(u64, u64)> = match out {
+            Ok(o) => String::from_utf8_lossy(&o.stdout)
+                .lines()
+                .filter_map(|l| {
+                    let mut it = l.split_whitespace();
+                    Some((it.next()?.parse().ok()?, it.next()?.parse().ok()?))
+                })
+                .collect(),
+            Err(_) => vec![],
+        };
+        let distinct: std::collections::HashSet<u64> = a.iter().map(|x| x.1).collect();
+        let ok = a == b && a == c && a.len() as u64 == n;
+        println!("[selfcheck] determinism {}: {} run seeds x (2 in-process runs with 16/5 pool threads + 1 child process with 1 thread): {} ({} distinct digests)", prop, n, if ok { "identical" } else { "MISMATCH" }, distinct.len());
+        if !ok {
+            bad += 1;
+            for ((i, x), (_, y)) in a.iter().zip(b.iter()) {
+                if x != y {
+                    println!("    first in-process mismatch at run index {}", i);
+                    break;
+                }
+            }
+            for ((i, x), (_, y)) in a.iter().zip(c.iter()) {
+                if x != y {
+                    println!("    first cross-process mismatch at run index {}", i);
+                    break;
+                }
+            }
+        }
+    }
+    if bad == 0 {
+        0
+    } else {
+        2
+    }
 }
